@@ -15,7 +15,7 @@ RULE = ("cases: k in 2..5, r in 0..2 (k^(2r+1) <= 3125), all four flag combinati
 TRUSTED = ["random.random / random.choice / np.random.randint replaced inside cellpylib.rule_tables by a recording oracle",
            "float comparison of (k^n - c)/k^n with a target m/64 behaves like the rational comparison for k^n <= 3125"]
 ASSUMPTIONS = ["table_rule is exercised for k <= 10 only (it renders states with str, the tables use base_repr digits; they coincide for k <= 10); random_rule_table / table_walk_through for k up to 36",
-               "table_walk_through is exercised on complete tables (what random_rule_table returns)"]
+               "table_walk_through is exercised on complete tables (what random_rule_table returns, also with the keys re-ordered)"]
 
 
 class FakeRandom(pyrandom.Random):
@@ -122,6 +122,16 @@ def run_walk(c):
     import cellpylib as cpl
     import cellpylib.rule_tables as rt
     (table, lam0, q), fake0, exc = run_rrt(c)
+    if c.get("order"):
+        # a legal table need not list its keys in generation order (hand-written, loaded from a file, re-sorted, ...)
+        items = list(table.items())
+        if c["order"] == "rev":
+            items.reverse()
+        elif c["order"] == "shuffle":
+            pyrandom.Random(c["seed"] + 99).shuffle(items)
+        elif c["order"] == "byvalue":
+            items.sort(key=lambda kv: (kv[1], kv[0]))
+        table = dict(items)
     start = dict(table)
     fake = FakeRandom(c["seed"] + 17)
     saved = rt.random
@@ -142,6 +152,13 @@ def run_walk(c):
 
 
 def gen(ctx):
+    for c in _gen(ctx):
+        if c.get("kind") == "walk" and ctx.rng.random() < 0.35:
+            c["order"] = ctx.rng.choice(["rev", "shuffle", "byvalue"])
+        yield c
+
+
+def _gen(ctx):
     rng = ctx.rng
     for _ in range(ctx.n(500, 5000)):
         k = rng.choice([2, 2, 3, 3, 4, 5])
